@@ -10,7 +10,7 @@ func init() {
 	register(&propDef{
 		id: "C07", title: "Failures are handled by exactly the configured supervision directive",
 		technique: "exhaustive switch-table conformance over the Directive enum, CFG edge ordering of the directive lookup chain, guard dominance for the restart budget, writer/reader key agreement on the directive map, lockset",
-		explanation: "Decides: (1) the parent's dispatch on the directive covers every declared Directive constant and maps Stop→handleStopDirective, Restart→handleRestartDirective, Resume→doReinstate, Escalate→a PanicSignal told to the parent, anything else→suspend; 'include siblings' is derived from Strategy == OneForAllStrategy only; (2) in notifyParent the directive for the concrete error is looked up first, the any-error directive only on the not-found edge of the first, and the actor is suspended without notifying only when both are absent; (3) restart budget: in handleRestartDirective the budget test (faults > maxRetries within a positive window) dominates every restart and its true edge reaches suspendGroup and no restart (shared with C08); restartCount is incremented only in restartSubtree and a restart re-runs init (PreStart); (4) Supervisor.Directive reads the directive map with the same key function (errorType) that WithDirective / WithAnyErrorDirective write with, under the supervisor's mutex; (5) the stop directive shuts down the child and, with the one-for-all strategy, every sibling, and removes stopped nodes from the tree.",
+		explanation: "Decides: (1) the parent's dispatch on the directive covers every declared Directive constant and maps Stop→handleStopDirective, Restart→handleRestartDirective, Resume→doReinstate, Escalate→a PanicSignal told to the parent, anything else→suspend; 'include siblings' is derived from Strategy == OneForAllStrategy only; (2) in notifyParent the directive for the concrete error is looked up first, the any-error directive only on the not-found edge of the first, and the actor is suspended without notifying only when both are absent; (3) restart budget: in handleRestartDirective the budget test (faults > maxRetries within a positive window) dominates every restart and its true edge reaches suspendGroup and no restart (shared with C08); restartCount is incremented only in restartSubtree and a restart re-runs init (PreStart); (4) Supervisor.Directive reads the directive map with the same key function (errorType) that WithDirective / WithAnyErrorDirective write with, under the supervisor's mutex; (5) the stop directive shuts down the child and, with the one-for-all strategy, every sibling, and removes stopped nodes from the tree. Added after seed C07b: under one-for-all EVERY sibling joins the group of the Stop and Restart directives — the result of tree.siblings reaches the group list whole (spread append or an unconditional per-element append), no per-sibling filter.",
 		assumptions: []string{"behaviour over sequences of faults (alternating siblings, faults during a restart)", "reflection-based errorType naming is injective on the error types a user registers"},
 		minObl:     20,
 		run:        runC07,
@@ -297,6 +297,13 @@ func runC07(c *Ctx) {
 		inc := f.CondEdges(func(e ast.Expr) bool { return sdParams.Len() > 0 && objOf(f.Info, e) == types.Object(sdParams.At(sdParams.Len()-1)) }, true)
 		w := f.search(searchSpec{avoidEdges: inc, target: sib})
 		c.Check(w == nil && len(inc) > 0, "siblings-only-if-included", "siblings are stopped only under the one-for-all strategy", c.P.Pos(sd.Decl.Pos()), f.describe(w))
+		// under one-for-all EVERY sibling joins the group: the result of tree.siblings is added wholesale (spread append,
+		// or a loop that appends each element with no per-element condition). A filter (e.g. "only running siblings")
+		// leaves suspended siblings out of the directive.
+		for _, name := range []string{"PID.handleStopDirective", "PID.handleRestartDirective"} {
+			fn := c.Func("actor", name)
+			c.Check(everySiblingJoins(c, fn), name+"/every-sibling-joins", "under one-for-all every sibling of the faulty child joins the group the directive is applied to (no per-sibling filter)", c.P.Pos(fn.Decl.Pos()), "the siblings list is filtered, re-assigned or only partly appended")
+		}
 	})
 }
 
@@ -306,4 +313,60 @@ func isNamed(t types.Type, name string) bool {
 	}
 	n, ok := types.Unalias(t).(*types.Named)
 	return ok && n.Obj().Name() == name
+}
+
+// everySiblingJoins: the slice returned by tree.siblings reaches the group list whole.
+func everySiblingJoins(c *Ctx, fn *Fn) bool {
+	info := fn.Info()
+	sibFn := c.FuncObj("actor", "tree.siblings")
+	isSibCall := func(e ast.Expr) bool {
+		call, ok := ast.Unparen(e).(*ast.CallExpr)
+		return ok && callee(info, call) == sibFn
+	}
+	// the siblings value: the call itself or a single-definition local holding it
+	isSiblings := func(e ast.Expr) bool {
+		if isSibCall(e) {
+			return true
+		}
+		if id, ok := ast.Unparen(e).(*ast.Ident); ok {
+			if def := singleLocalDefIn(info, fn.Decl.Body, info.ObjectOf(id)); def != nil {
+				return isSibCall(def)
+			}
+		}
+		return false
+	}
+	nCalls, whole := 0, 0
+	ast.Inspect(fn.Decl.Body, func(n ast.Node) bool {
+		switch x := n.(type) {
+		case *ast.CallExpr:
+			if isSibCall(x) {
+				nCalls++
+			}
+			if id, ok := x.Fun.(*ast.Ident); ok && id.Name == "append" && len(x.Args) == 2 && x.Ellipsis.IsValid() && isSiblings(x.Args[1]) {
+				whole++
+			}
+		case *ast.RangeStmt:
+			if !isSiblings(x.X) || x.Value == nil {
+				return true
+			}
+			val := info.ObjectOf(x.Value.(*ast.Ident))
+			// every top-level statement of the body up to the append is free of branches
+			for _, st := range x.Body.List {
+				if as, ok := st.(*ast.AssignStmt); ok && len(as.Rhs) == 1 {
+					if call, ok := as.Rhs[0].(*ast.CallExpr); ok {
+						if id, ok := call.Fun.(*ast.Ident); ok && id.Name == "append" && len(call.Args) == 2 && objOf(info, call.Args[1]) == val {
+							whole++
+							break
+						}
+					}
+				}
+				switch st.(type) {
+				case *ast.IfStmt, *ast.SwitchStmt, *ast.BranchStmt, *ast.ReturnStmt, *ast.ForStmt, *ast.RangeStmt:
+					return true // a condition or exit before the append: not unconditional
+				}
+			}
+		}
+		return true
+	})
+	return nCalls == 1 && whole == 1
 }
